@@ -41,6 +41,8 @@ type evType struct {
 	subCtx func(bus *eventbus.EventBus, fn func(context.Context, Ev), so ...eventbus.SubscribeOption)
 	// subReplay subscribes through SubscribeWithReplay (bus with a store)
 	subReplay func(bus *eventbus.EventBus, id string, fn func(Ev), so ...eventbus.SubscribeOption) error
+	// notFirst: a filter option that accepts only the event with ID 2 (the second top-level publish)
+	notFirst func() eventbus.SubscribeOption
 	pubCtx func(bus *eventbus.EventBus, ctx context.Context, e Ev, viaAny bool)
 	pub    func(bus *eventbus.EventBus, e Ev)
 	pubAny func(bus *eventbus.EventBus, e Ev) // through the static type any
@@ -59,6 +61,9 @@ func mkType[T ~struct {
 		},
 		subReplay: func(bus *eventbus.EventBus, id string, fn func(Ev), so ...eventbus.SubscribeOption) error {
 			return eventbus.SubscribeWithReplay(context.Background(), bus, id, func(e T) { fn(Ev(e)) }, so...)
+		},
+		notFirst: func() eventbus.SubscribeOption {
+			return eventbus.WithFilter(func(e T) bool { return Ev(e).ID == 2 })
 		},
 		pubCtx: func(bus *eventbus.EventBus, ctx context.Context, e Ev, viaAny bool) {
 			if viaAny {
@@ -120,6 +125,10 @@ type H struct {
 	// it is a live asynchronous subscription that also records its position;
 	// Wait and Shutdown cover its invocations like any other.
 	Replay bool `json:"replay,omitempty"`
+	// SkipFirst (Once handlers): subscribed with a filter that accepts only
+	// the second top-level event, so the handler is claimed by that one - if
+	// there is one.  A rejected event is not an invocation.
+	SkipFirst bool `json:"skip_first,omitempty"`
 }
 
 type Case struct {
@@ -180,7 +189,7 @@ func model(c *Case) modelRes {
 	// Once handlers are claimed by the first top-level publish (time 0) and
 	// never nest.
 	for _, h := range c.Handlers {
-		if !h.Once || c.Pubs == 0 {
+		if !h.Once || c.Pubs == 0 || (h.SkipFirst && c.Pubs < 2) {
 			continue
 		}
 		m.expected++
@@ -284,6 +293,9 @@ func bubble(c *Case, o *vkit.Outcome) {
 		so := []eventbus.SubscribeOption{eventbus.Async()}
 		if h.Once {
 			so = append(so, eventbus.Once())
+			if h.SkipFirst {
+				so = append(so, c.typesInUse()[0].notFirst())
+			}
 		}
 		// every type in use gets the same handler set; a Once handler is
 		// subscribed for the top-level type only (it is claimed by the first
